@@ -39,6 +39,7 @@ WORKLOADS = {
     "expr": ("w_expr.cpp", ()),
     "scope_v2": ("w_scope.cpp", ()),
     "scope_v1": ("w_scope.cpp", ()),
+    "scope_v0": ("w_scope.cpp", ()),
     "cancel_detach": ("w_cancel.cpp", ()),
     "cancel_sor": ("w_cancel.cpp", ()),
     "cancel_raw": ("w_cancel.cpp", ()),
@@ -225,6 +226,10 @@ PROPS = {
         batches=[
             B("w_scope.cpp", "scope_v2", quick=10, thorough=150, oracles=["c08.", "c01."] + RT_LIVE + RT_LIB),
             B("w_scope.cpp", "scope_v1", quick=8, thorough=120, oracles=["c08.", "c01."] + RT_LIVE + RT_LIB),
+            B("w_scope.cpp", "scope_v0", quick=4, thorough=60, oracles=["c08.", "c01.", "c02.", "c09.throw"] + RT_ALL),
+            B("w_scope.cpp", "scope_v2", params="faults=1", quick=4, thorough=60, oracles=["c08.", "c01."] + RT_LIVE + RT_LIB),
+            B("w_scope.cpp", "scope_v1", params="faults=1", quick=4, thorough=60, oracles=["c08.", "c01."] + RT_LIVE + RT_LIB),
+            B("w_scope.cpp", "scope_v0", params="faults=1", quick=3, thorough=45, oracles=["c08.", "c01.", "c02.", "c09.throw"] + RT_ALL),
         ],
         level_text=("Seeded exploration over the real v2 and v1 async_scope: 1-3 worker threads issue 1-10 pieces of work (nest+start, nest+discard, "
                     "nest+connect+discard-unstarted, spawn_detached, spawn_future awaited / dropped / awaited-then-cancelled, v1 attach) whose nested "
@@ -233,9 +238,13 @@ PROPS = {
                     "every started piece of work has delivered its completion; no work starts or completes after a join completion; work nested "
                     "strictly after the scope was closed never starts and completes with done; discarded nest-senders never start their work; "
                     "every started join completes exactly once with value (deadlock = lost join); v1 cleanup()/request_stop() is observed by "
-                    "outstanding work; scope destructor assertions (use_count()==0)."),
-        level_note=("Trusted: usim stubs. v0 async_scope is not driven. join receivers use the inline scheduler."),
-        real=["unifex::v2::async_scope (nest, join)", "unifex::v1::async_scope (spawn, detached_spawn, attach, complete, cleanup, request_stop)", "spawn_detached, spawn_future, nest",
+                    "outstanding work; scope destructor assertions (use_count()==0). "
+                    "v0::async_scope: spawn() of void senders from 1-3 threads against complete()/cleanup()/request_stop(), same join oracles. "
+                    "faults=1 batches: allocation failures (operator new throws, per issuing thread) while an item is issued and nested senders "
+                    "whose connect() throws: the exception must leave the scope as if the item had never been issued (joins still complete, the "
+                    "operation was not started, whatever had been connected is destroyed, nothing leaks)."),
+        level_note=("Trusted: usim stubs. join receivers use the inline scheduler."),
+        real=["unifex::v0::async_scope (spawn, complete, cleanup, request_stop)", "unifex::v2::async_scope (nest, join)", "unifex::v1::async_scope (spawn, detached_spawn, attach, complete, cleanup, request_stop)", "spawn_detached, spawn_future, nest",
               "v1 async_manual_reset_event", "let_value_with_stop_token, let_value_with, variant_sender, sequence, just_from"],
         stub=["harness gates (kit/gate.hpp)", "pthread layer, heap (usim)"],
     ),
@@ -244,15 +253,19 @@ PROPS = {
         batches=[
             B("w_scope.cpp", "scope_v2", quick=10, thorough=150, oracles=["c09."] + RT_MEM + RT_LIB),
             B("w_scope.cpp", "scope_v1", quick=8, thorough=120, oracles=["c09."] + RT_MEM + RT_LIB),
+            B("w_scope.cpp", "scope_v2", params="faults=1", quick=6, thorough=90, oracles=["c09.", "c02."] + RT_MEM + RT_LIB),
+            B("w_scope.cpp", "scope_v1", params="faults=1", quick=5, thorough=60, oracles=["c09.", "c02."] + RT_MEM + RT_LIB),
         ],
         level_text=("Same executions as C08 (scope workloads) with the future oracles: a future awaited with or without a later cancellation, or "
                     "dropped before/after its operation completes, on another thread than the completer. Oracles: value/error equal to what the "
                     "spawned gate delivered; done only if the operation was done, never admitted, cancelled before the result was available (a "
                     "result available before the await started is delivered), or (v1) the scope's stop source fired; a cancelled future's "
                     "operation observes the stop request; the shared heap state is allocated in the arena: double free, leak at end of run and "
-                    "any library access after it was freed are reported by the runtime (shadow memory)."),
-        level_note=("Trusted: usim stubs. Not yet driven: throwing nest()/connect/allocation during spawn (the strong exception guarantee clause) and "
-                    "the terminate-on-error clause of spawn_detached."),
+                    "any library access after it was freed are reported by the runtime (shadow memory). "
+                    "faults=1 batches: operator new fails (seeded, only on the thread issuing the item) inside spawn_future/spawn_detached/spawn, and "
+                    "nested senders throw from connect(): no operation is started, no receiver completed, the half-built shared state and the "
+                    "connected operation are destroyed exactly once and nothing is leaked; the scope still joins."),
+        level_note=("Trusted: usim stubs. Not driven: the terminate-on-error clause of spawn_detached (a process exit, not observable inside one run)."),
         real=["spawn_future (future<>, _spawn_future_op, drop/abandon/complete protocol)", "spawn_detached", "v1/v2 async_scope"],
         stub=["harness gates", "pthread layer, heap (usim)"],
     ),
